@@ -53,8 +53,9 @@ pub struct Interpreter<TStdlib: Stdlib, TStdIn: Input, TStdOut: Printer, TLpt1: 
     /// Holds the "registers" of the CPU
     register_stack: RegisterStack,
 
-    /// Holds addresses to jump back to
-    return_address_stack: Vec<usize>,
+    /// Holds addresses to jump back to,
+    /// together with the number of register frames at the time of the call
+    return_address_stack: Vec<(usize, usize)>,
 
     /// Holds addresses to RETURN to after a GOSUB
     go_sub_address_stack: Vec<usize>,
@@ -443,10 +444,13 @@ impl<TStdlib: Stdlib, TStdIn: Input, TStdOut: Printer, TLpt1: Printer>
                 ctx.halt = true;
             }
             Instruction::PushRet(address) => {
-                self.return_address_stack.push(*address);
+                self.return_address_stack
+                    .push((*address, self.register_stack.len()));
             }
             Instruction::PopRet => {
-                let address = self.return_address_stack.pop().unwrap();
+                let (address, register_frames) = self.return_address_stack.pop().unwrap();
+                // EXIT SUB / EXIT FUNCTION inside a FOR loop leaves the loop's register frame behind
+                self.register_stack.truncate(register_frames);
                 ctx.opt_next_index = Some(address);
             }
             Instruction::GoSub(address_or_label) => {
